@@ -656,6 +656,8 @@ Definition h_mac (s : store) (cr : cres) (u : option Z) (alg_given data_given : 
       rd MACF (so_class o) "value"
       (if so_value_empty o then Done else
        if negb data_given then Done else
+       (* a repaired tree (fixes/C04-mac-object-type) refuses every type but symmetric keys and secret data here *)
+       if negb (defect "mac-accepts-any-type") && negb (mem_z (so_otype o) [OT_SYMMETRIC_KEY; OT_SECRET_DATA]) then Done else
        rd_or "mac-stateless-object" MACF (so_class o) "state"
        (if negb (match so_state o with Some x => x =? ST_ACTIVE | None => false end) then Done else
         rd MACF (so_class o) "cryptographic_usage_masks"
